@@ -384,6 +384,45 @@ func runPtr(w *core.Worker, c PtrCase) {
 	w.NonTrivial(core.HashString(core.JSON(c)))
 }
 
+
+// FuzzStack (thorough tier): coverage-guided fuzzing over phase scripts of the bulk monitor
+// ((op, arg) byte pairs: small and large push / pop phases).
+func FuzzStack(f *testing.F) {
+	f.Add(false, []byte{1, 60, 3, 50, 0, 3, 2, 9})
+	f.Add(true, []byte{0, 2, 2, 1, 1, 10, 3, 11, 0, 1})
+	f.Fuzz(func(t *testing.T, linked bool, data []byte) {
+		if len(data) > 48 {
+			data = data[:48]
+		}
+		c := BulkCase{Linked: linked}
+		total := 0
+		for i := 0; i+1 < len(data); i += 2 {
+			k := int(data[i+1])
+			big := k*6 + 1
+			if linked {
+				big = k%40*6 + 1
+			}
+			switch data[i] % 4 {
+			case 0:
+				c.Phases = append(c.Phases, k%8+1)
+				total += k%8 + 1
+			case 1:
+				c.Phases = append(c.Phases, big)
+				total += big
+			case 2:
+				c.Phases = append(c.Phases, -(k%8 + 1))
+			default:
+				c.Phases = append(c.Phases, -big)
+			}
+			if total > 6000 {
+				break
+			}
+		}
+		w := core.Probe(func(sig, detail string) { t.Fatalf("VERIF-SIG %s\nVERIF-CASE %s\n%s", sig, core.JSON(c), detail) })
+		runBulk(w, c)
+	})
+}
+
 func TestProp(t *testing.T) {
 	r := core.Start(t, "C06")
 	defer r.Finish()
